@@ -208,6 +208,64 @@ def accessor_copy(eng, res, rule="R-ACCESSOR-COPY"):
         res.ob(rule, gm, "mirror-edits-copy", "gen_mirror edits only a deep copy of the molecule", gm.node, not bad, "; ".join(bad))
 
 
+def shared_mutable(eng, res, rule="R-NO-SHARED-MUTABLE"):
+    """A mutable literal bound in a class body is shared by all instances: it must not be mutated in place
+    through `self` unless every constructor on the way rebinds it to a fresh value first."""
+    from ..effects import MUT_METHODS
+
+    n = 0
+    for ci in eng.prog.classes.values():
+        for st in ci.node.body:
+            if not isinstance(st, ast.Assign) or len(st.targets) != 1 or not isinstance(st.targets[0], ast.Name):
+                continue
+            v = st.value
+            mutable = isinstance(v, (ast.List, ast.Dict, ast.Set, ast.ListComp, ast.DictComp)) or (
+                isinstance(v, ast.Call) and callee_name(v) in ("list", "dict", "set", "defaultdict", "OrderedDict", "deque", "zeros", "array"))
+            if not mutable:
+                continue
+            attr = st.targets[0].id
+            for sc in eng.prog.subclasses(ci.name):
+                n += 1
+                # in-place mutations of self.attr in methods defined by sc (or inherited ones not rebinding)
+                muts = []
+                for c in eng.prog.mro(sc):
+                    for fs in c.methods.values():
+                        for f in fs:
+                            for sub in with_nested(f):
+                                for node in own_nodes(sub.node):
+                                    if isinstance(node, ast.Call) and isinstance(node.func, ast.Attribute) and node.func.attr in MUT_METHODS and src(node.func.value) == f"self.{attr}":
+                                        muts.append((sub, node))
+                                    if isinstance(node, ast.Subscript) and isinstance(node.ctx, (ast.Store, ast.Del)) and src(node.value) == f"self.{attr}":
+                                        muts.append((sub, node))
+                                    if isinstance(node, ast.AugAssign) and src(node.target) == f"self.{attr}":
+                                        muts.append((sub, node))
+                if not muts:
+                    continue
+                init = eng.prog.lookup_method(sc, "__init__")
+                rebound = False
+                if init is not None:
+                    fl = eng.flow(init)
+                    for node in own_nodes(init.node):
+                        if isinstance(node, ast.Assign) and any(src(t) == f"self.{attr}" for t in node.targets):
+                            nid = fl.cfg.node_of(node)
+                            if not [g for g in fl.cfg.guards(nid)] and all(fl.cfg.must_pass(nid, p) for p, _ in fl.cfg.pred[fl.cfg.exit]):
+                                # and before any in-place mutation inside the constructor itself
+                                rebound = True
+                            elif all(fl.cfg.must_pass(nid, fl.cfg.node_of(m)) for f_, m in muts if f_ is init) and not fl.cfg.guards(nid):
+                                rebound = True
+                            else:
+                                # first statement-level rebinding that dominates every later use in the constructor
+                                first_mut = [fl.cfg.node_of(m) for f_, m in muts if f_ is init]
+                                rebound = rebound or (all(fl.cfg.must_pass(nid, x) for x in first_mut) and not any(
+                                    lbl == "T" and False for _, lbl in fl.cfg.guards(nid)))
+                f0, n0 = muts[0]
+                res.unit(f0)
+                res.ob(rule, sc.qualname, f"{ci.name}.{attr}", f"class-level mutable `{attr}` is rebound per instance before `{sc.name}` mutates it in place (no state shared between objects)",
+                       f"{f0.module.relpath}:{n0.lineno}", rebound,
+                       f"`{attr}` is bound once in the class body of {ci.name} and mutated through self in {f0.qualname}: every instance (and every generation) shares it")
+    return n
+
+
 def rng_in_scope(eng, fi: FuncInfo):
     f = fi
     while f is not None:
@@ -342,6 +400,7 @@ def check(eng, res):
     res.doc("R-RNG-THREAD", "every call to a callee with an rng parameter (and every SciPy rvs) passes the generator in scope")
     res.doc("R-GLOBAL-RNG-USE", "_GLOBAL_RNG only as default / None-fallback; no legacy global random functions; unseeded default_rng only as fallback")
     res.doc("R-NO-PARSER-STORE", "A-EFFECT: no store reachable from an entry point (generate, printers, graph builders, probability, typing) lands in constructor-established state of a parsed object")
+    res.doc("R-NO-SHARED-MUTABLE", "a mutable bound in a class body is never mutated through self without a per-instance rebinding in the constructor")
     res.doc("R-COPY-OWNED", "every value stored into MolGen.bond_descriptors is a deep copy")
     res.doc("R-ACCESSOR-COPY", "Molecule.elements returns, and gen_mirror edits, deep copies")
     n1 = rng_thread(eng, res)
@@ -352,6 +411,7 @@ def check(eng, res):
     res.floor("R-NO-PARSER-STORE", n3, 60)
     n4 = copy_owned(eng, res)
     res.floor("R-COPY-OWNED", n4, 2)
+    shared_mutable(eng, res)
     accessor_copy(eng, res)
     # information: module-level mutable state written from functions
     for fi in eng.prog.all_functions():
